@@ -11,8 +11,10 @@ import (
 	"context"
 	"fmt"
 	"math/rand"
+	"os"
 	"strings"
 	"sync"
+	"sync/atomic"
 	"time"
 
 	logging "github.com/ipfs/go-log/v2"
@@ -39,6 +41,10 @@ type gen struct {
 	used   map[string]bool // contents used in the current case
 	unique bool            // trigger regions: all transaction contents of a case are pairwise different
 	binary bool            // this case mixes in binary transaction contents (see binTx)
+	// wide (see wide.go): heights repeat transaction bytes (inside a height and across heights) and limits may be
+	// huge; no additional random numbers are drawn when it is off
+	wide bool
+	prev []string // wide: the transactions of the previously generated non-empty height
 }
 
 // invalid UTF-8 material: lone continuation bytes, truncated sequences, an encoded surrogate, 0xFE/0xFF
@@ -137,6 +143,9 @@ func (g *gen) height(h uint64, maxTx, maxSize int) HeightTxs {
 	n := g.rng.Intn(maxTx + 1)
 	for i := 0; i < n; i++ {
 		ht.Txs = append(ht.Txs, g.tx(maxSize))
+	}
+	if g.wide && !g.unique {
+		ht.Txs = g.repeatBytes(ht.Txs)
 	}
 	return ht
 }
@@ -274,6 +283,9 @@ func (g *gen) genOnce(id int, region string) Case {
 				}
 				if rng.Intn(12) == 0 {
 					st.Limit = 0 // no size requested: the sequencer's default applies
+				}
+				if g.wide && rng.Intn(5) == 0 {
+					st.Limit = hugeLimit(rng)
 				}
 			case "partial-fit":
 				// never below the largest transaction: everything fits some batch
@@ -424,6 +436,9 @@ func (g *gen) genFreeOpt(id int, region string) Case {
 			default:
 				st.Limit = mx + 1 + uint64(rng.Intn(int(total/3+2)))
 			}
+			if g.wide && rng.Intn(5) == 0 {
+				st.Limit = hugeLimit(rng)
+			}
 			if region == "free" && len(st.Errs) == 0 && rng.Intn(12) == 0 {
 				st.CancelAtRetrieval = 1 + rng.Intn(4)
 			}
@@ -489,12 +504,31 @@ func hex2(ts [][]byte) []string {
 	return out
 }
 
+// pacedInVain counts the cases of this run that were given real time (a second of paced calls) to complete and
+// still did not: after pacedInVainMax of them the run is failing for a reason that pauses do not cure, and further
+// incomplete cases are judged without the wait (it only keeps a failing run short; a sequencer that merely paces
+// itself completes during the wait and never counts here).
+var pacedInVain atomic.Int64
+
+const pacedInVainMax = 24
+
 // Judge runs the case against the real based sequencer and judges it.
 func Judge(c Case) *Verdict {
 	v := &Verdict{Kind: "pass", hits: map[string]int64{}}
 	ctx := context.Background()
 	im := world.NewImage()
 	da := world.NewDADouble()
+	da.ContentIDs = c.ContentIDs
+	if c.Base > 0 || c.Store != nil {
+		// large heights: keep the reported block times inside the range a time.Time can be encoded in
+		da.TimeOf = func(h uint64) time.Time { return time.Unix(1_700_000_000+int64(h%1_000_000_000), 0) }
+	}
+	if c.Store != nil {
+		if err := c.Store.load(im); err != nil {
+			v.Kind, v.Clause, v.Detail = "inconclusive", "setup", "recorded store not loadable: "+err.Error()
+			return v
+		}
+	}
 	s := newSim(c) // window model (trigger predicates) and the harness's record of the DA contents
 	place := func(hts []HeightTxs) {
 		for _, ht := range hts {
@@ -536,6 +570,18 @@ func Judge(c Case) *Verdict {
 	strictAlive, tolAlive := true, true
 	strictDeath := ""
 	afterRestart := "" // "" | kept | nil | stale: a restart happened and no batch was released since
+	if st := c.Store; st != nil {
+		// the history starts as a restart on a store that the pinned tree wrote while it released the first
+		// st.Released transactions of these DA contents
+		last, prevLast = st.ids(st.Last), st.ids(st.PrevLast)
+		pS, pT, carry = st.Released, st.Released, st.Carry
+		afterRestart = "kept"
+		v.nRestart++
+		v.hits["start-on-store-written-by-pinned-tree"]++
+		if carry {
+			v.hits["start-on-store-written-by-pinned-tree-with-carry-over"]++
+		}
+	}
 
 	// doCall performs one GetNextBatch and judges the batch. It returns a final verdict or nil.
 	// crash experiment: a call during which the datastore died. Its response never reached anybody; from then on
@@ -566,6 +612,12 @@ func Judge(c Case) *Verdict {
 			cancelAt = 0
 			defer func() { da.Delay = nil; cancel() }()
 			v.hits["call-with-context-cancelled-mid-scan"]++
+		}
+		if limit >= 1<<31 && carry && !crashed {
+			v.hits["huge-limit-call-with-carry-over"]++
+			if afterRestart != "" {
+				v.hits["huge-limit-call-with-carry-over-after-restart"]++
+			}
 		}
 		resp, err := seq.GetNextBatch(callCtx, coresequencer.GetNextBatchRequest{Id: []byte(chainID), LastBatchData: last, MaxBytes: limit})
 		rec := CallRec{Step: stepIdx, Limit: limit, Head: s.w.head, Phase: phase}
@@ -625,6 +677,9 @@ func Judge(c Case) *Verdict {
 			v.hits["restart-continuity"]++
 			if afterRestart != "kept" {
 				v.hits["restart-continuity-cursor-"+afterRestart]++
+			}
+			if c.Base > 0 || c.Store != nil {
+				v.hits[fmt.Sprintf("restart-continuity-at-%d-digit-heights", len(fmt.Sprint(s.w.head)))]++
 			}
 			afterRestart = ""
 		}
@@ -745,12 +800,26 @@ func Judge(c Case) *Verdict {
 			}
 		}
 	}
+	if c.dumpTo != nil {
+		// golden writer: record what the sequencer left in the datastore and how far it got
+		if strictAlive && !crashed {
+			c.dumpTo.record(im, pS, carry, last, prevLast)
+		}
+		return v
+	}
 	// bounded progress: the DA is frozen, no faults, the limit admits everything: after enough
 	// calls every transaction on DA must have been released
 	big := uint64(100000)
 	for _, ts := range s.w.content {
 		for _, t := range ts {
 			big += uint64(len(t))
+		}
+	}
+	if c.DrainLimit != 0 {
+		big = c.DrainLimit
+		v.hits["drain-with-huge-limit"]++
+		if carry {
+			v.hits["drain-with-huge-limit-starting-with-carry-over"]++
 		}
 	}
 	En := nonEmptyAt(s.w.stream(c.Start, nil))
@@ -765,7 +834,7 @@ func Judge(c Case) *Verdict {
 			break
 		}
 	}
-	if strictAlive && pS < len(En) && !crashed {
+	if strictAlive && pS < len(En) && !crashed && pacedInVain.Load() < pacedInVainMax {
 		// a sequencer that paces its DA requests by the clock answers nothing to calls a few microseconds apart:
 		// give it real time before calling it incomplete
 		for k := 0; k < 40 && pS < len(En) && strictAlive; k++ {
@@ -776,11 +845,13 @@ func Judge(c Case) *Verdict {
 		}
 		if strictAlive && pS == len(En) {
 			v.hits["completed-only-with-pauses"]++
+		} else {
+			pacedInVain.Add(1)
 		}
 	}
 	if crashed {
 		v.CrashKind, v.Detail = evalCrash(crashB, crashR, En[crashAt:])
-		if v.CrashKind == "violation:loss" {
+		if v.CrashKind == "violation:loss" && pacedInVain.Load() < pacedInVainMax {
 			// as above: real time for a sequencer that paces itself by the clock, before anything is called lost
 			for k := 0; k < 40; k++ {
 				time.Sleep(25 * time.Millisecond)
@@ -788,7 +859,9 @@ func Judge(c Case) *Verdict {
 					return r
 				}
 			}
-			v.CrashKind, v.Detail = evalCrash(crashB, crashR, En[crashAt:])
+			if v.CrashKind, v.Detail = evalCrash(crashB, crashR, En[crashAt:]); v.CrashKind == "violation:loss" {
+				pacedInVain.Add(1)
+			}
 		}
 		if strings.HasPrefix(v.CrashKind, "violation:") {
 			return fail("crash-inside-"+strings.TrimPrefix(v.CrashKind, "violation:"), v.Detail)
@@ -804,6 +877,12 @@ func Judge(c Case) *Verdict {
 	Et := nonEmptyAt(s.w.stream(c.Start, s.skipped))
 	switch {
 	case strictAlive && pS == len(En):
+		if n := sameBytesInHeight(s.w); n > 0 {
+			v.hits["same-bytes-twice-in-one-height-released-twice"] += int64(n)
+			if c.ContentIDs {
+				v.hits["same-bytes-twice-in-one-height-under-one-id-released-twice"] += int64(n)
+			}
+		}
 		return v
 	case !strictOnly && s.trigSkip() && tolAlive && pT == len(Et):
 		missing := 0
@@ -986,6 +1065,9 @@ func shrink(c Case) Case {
 				}
 			}
 		}
+		if c.Store != nil {
+			continue // the recorded store belongs to exactly these DA contents
+		}
 		dropTx(func(n *Case) []HeightTxs { return n.Initial })
 		for i := range c.Steps {
 			if c.Steps[i].Kind == "grow" {
@@ -1104,6 +1186,8 @@ func (rp *reporter) handle(c Case, v *Verdict) {
 		return map[string]any{"case": cc, "verdict": vv, "trigger_push_back": pb, "trigger_skipped_heights_filled_later": skips}
 	}
 	switch v.Kind {
+	case "inconclusive":
+		r.Inconclusive(v.Detail)
 	case "pass":
 		if c.Region != "clean" {
 			r.Count("trigger_case_without_failure", 1)
@@ -1169,13 +1253,19 @@ func pool(n int, f func(i int)) {
 // Run is the check entry point.
 func Run(r *vk.Run) {
 	world.Silence()
+	if os.Getenv("VERIF_C20_WRITE_GOLDEN") == "1" {
+		os.Exit(writeGolden())
+	}
 	r.Rule = "seeded cases: DA contents of 1-8 initial heights x 0-6 txs of 1-60 bytes (empty heights included), start height 0|1|3, max height drift 0|1|2|5, 4-17 steps {GetNextBatch(limit, LastBatchData passed back as the block manager does) with optional scripted retrieval errors | restart (new Sequencer on the same datastore) | DA growth above the head}, then a drain phase with a limit above everything; " +
 		"non-trivial = >= 2 calls released txs and >= 1 restart, retrieval error, growth step or batch ending inside a height; distinct by (region, start, drift, step-kind sequence: c call covering its window | p call with limit below its window content | e call with errors | R restart | g growth). " +
 		"Regions: clean = no call's scan window reaches the call's limit and no height passed while unproduced is filled later; skips-unproduced = the latter happens (limits still above the windows); partial-fit / oversize = some window reaches the limit (limits >= every tx / limits below single txs); free = no regard to the window model: any limit (below a tx, exactly a tx, none = default), retrieval errors (7 listing / 11 chunk identities) and DA growth at any time incl. after a carry-over, now and then a height with 101-230 txs (several id chunks) or one 256 KiB tx. " +
-		"In every region half of the cases mix in non-text transactions (zero bytes, 0xFF runs, random bytes, invalid UTF-8, JSON metacharacters, U+FFFD, zero-length blobs), and after a restart the caller passes back the LastBatchData it kept, none (lost) or the one before (stale); some calls request no size (MaxBytes=0). Zero-length blobs are not judged (may be released or left out); a call without a requested size is not judged for size."
+		"In every region half of the cases mix in non-text transactions (zero bytes, 0xFF runs, random bytes, invalid UTF-8, JSON metacharacters, U+FFFD, zero-length blobs), and after a restart the caller passes back the LastBatchData it kept, none (lost) or the one before (stale); some calls request no size (MaxBytes=0). Zero-length blobs are not judged (may be released or left out); a call without a requested size is not judged for size. " +
+		"Wide dimensions (own random stream, n/4 clean-region and free cases + n/32 directed 'carry-over, [restart,] huge limit' cases): heights that hold the same bytes at two positions and bytes that recur at later heights, on a DA double whose ids are content-derived (height + sha256, both copies under one id, as the repository's DummyDA) or per blob; limits 2^31, 2^32, 2^63, 2^64-1 and neighbours as call limits and as the drain limit; every height of half of these cases shifted to bases of 6-20 decimal digits (across 10^7, 10^8, 2^32, 10^18, 2^63, 10^19, up to 1615 below 2^64). " +
+		"Recorded stores: 60 datastores that the pinned tree left behind at heights of 1-20 digits (golden/c20/stores.json: DA contents, image, released count, caller's LastBatchData; with and without a persisted carry-over), each continued 6 (60) times with 0-5 seeded steps and the drain."
 	r.Assume("DA layer is the DADouble: heights at or below the head are immutable, growth only above the head; retrieval errors are transient (listing error or chunk error), never a lie about contents")
 	r.Assume("datastore is the in-memory MemDS double; a restart is a new Sequencer over the same image")
 	r.Assume("bounded progress: with the DA frozen, no faults and a limit above everything, (heights + txs + 5) calls must release everything up to the head")
+	r.Assume("an upgrade is a restart: a datastore written by the pinned tree must be continued by today's code (recorded stores); the check never looks into the image")
 	r.Assume("clean region of today's tree is narrow: every call's limit exceeds the content of its whole scan window, so no batch ever ends inside a height there (any carry-over triggers C20-rescan-after-partial)")
 	rp := &reporter{r: r, seen: map[string]int{}}
 
@@ -1230,4 +1320,43 @@ func Run(r *vk.Run) {
 		crash[i] = g.genCrash(n + nFree + i)
 	}
 	pool(len(crash), func(i int) { rp.handle(crash[i], Judge(crash[i])) })
+
+	// 5. wide dimensions (wide.go), from their own random stream: repeated bytes inside a height and across heights
+	// on content-derived or per-blob ids, limits at the edges of the integer types, large DA heights
+	gw := &gen{rng: r.Rand("wide")}
+	nWide := n / 4
+	wide := make([]Case, 0, nWide+nWide/8)
+	for i := 0; i < nWide; i++ {
+		wide = append(wide, gw.genWide(2*n+i))
+	}
+	for i := 0; i < nWide/8; i++ {
+		wide = append(wide, gw.carryThenHuge(2*n+nWide+i))
+	}
+	r.Require("huge-limit-call-with-carry-over", int64(nWide/16))
+	r.Require("huge-limit-call-with-carry-over-after-restart", int64(nWide/64))
+	r.Require("drain-with-huge-limit-starting-with-carry-over", int64(nWide/64))
+	r.Require("same-bytes-twice-in-one-height-under-one-id-released-twice", int64(nWide/8))
+	for _, d := range []int{7, 8, 9, 10, 19, 20} {
+		r.Require(fmt.Sprintf("restart-continuity-at-%d-digit-heights", d), int64(nWide/200))
+	}
+	pool(len(wide), func(i int) { rp.handle(wide[i], Judge(wide[i])) })
+
+	// 6. histories that start on a datastore written by the pinned tree (golden.go)
+	stores, err := readGolden()
+	if err != nil {
+		r.Inconclusive("recorded stores not usable: " + err.Error())
+		return
+	}
+	r.Set("recorded_stores", len(stores))
+	rs := r.Rand("stores")
+	per := r.N(6, 60)
+	var sc []Case
+	for i := range stores {
+		for k := 0; k < per; k++ {
+			sc = append(sc, storeCase(rs, 3*n+len(sc), &stores[i]))
+		}
+	}
+	r.Require("start-on-store-written-by-pinned-tree", int64(len(sc)))
+	r.Require("start-on-store-written-by-pinned-tree-with-carry-over", int64(len(sc)/4))
+	pool(len(sc), func(i int) { rp.handle(sc[i], Judge(sc[i])) })
 }
